@@ -68,6 +68,9 @@ def plan(tier, seed):
     return batches
 
 
+PROPS = ('property_x', 'property_y', 'property_z', 'mu_r', 'epsilon_r')
+
+
 def extract_matrix(fn, grid, vm, dtype, cols):
     """Columns of the operator applied by kernel ``fn`` (A e = -(r_out))."""
     import emg3d
@@ -90,6 +93,8 @@ def check_operator(rec, gs, ms, freq, tag, use_pyfunc_cols=4, r=None):
     grid, model = gen.build_emg3d(gs, ms)
     ref = gen.build_refop(gs, ms, freq)
     sf = emg3d.Field(grid, frequency=freq)
+    props0 = {n_: None if getattr(model, n_) is None else
+              np.array(getattr(model, n_)) for n_ in PROPS}
     vm = models.VolumeModel(model, sf)
     dtype = sf.field.dtype
     interior = np.flatnonzero(ref.interior)
@@ -215,6 +220,44 @@ def check_operator(rec, gs, ms, freq, tag, use_pyfunc_cols=4, r=None):
     if not (d2 <= 1e-11):
         rec.violation('C02:entry-mismatch', f'A e differs from reference on '
                       f'a random field: {d2:.3e}', case)
+    # (5) the same Model object serves a second operator (another frequency
+    # or Laplace value, as in a survey with several frequencies): the model
+    # the user handed over is unchanged and the second operator is the FIT
+    # operator of that model, too
+    props_now = {n_: None if getattr(model, n_) is None else
+                 np.array(getattr(model, n_)) for n_ in PROPS}
+    rec.event('model_untouched_checks')
+    for n_ in PROPS:
+        a, b = props0[n_], props_now[n_]
+        if (a is None) != (b is None) or (a is not None and not
+                                          np.array_equal(a, b)):
+            rec.violation('C02:volume-model-modifies-model',
+                          f'building the operator coefficients changed '
+                          f'model.{n_} (mapping {ms["mapping"]})', case)
+            return
+    freq2 = -freq*1.7 if r.random() < 0.3 else freq*2.3
+    sf2 = emg3d.Field(grid, frequency=freq2)
+    vm2 = models.VolumeModel(model, sf2)
+    ref2 = gen.build_refop(gs, ms, freq2)
+    dtype2 = sf2.field.dtype
+    ev2 = gen.random_field(r, grid.n_edges, np.iscomplexobj(sf2.field))
+    ev2 = ev2.astype(dtype2)
+    ev2[~ref.interior] = 0
+    e = emg3d.Field(grid, data=ev2.copy())
+    rf = emg3d.Field(grid, dtype=dtype2)
+    core.amat_x(rf.fx, rf.fy, rf.fz, e.fx, e.fy, e.fz, vm2.eta_x, vm2.eta_y,
+                vm2.eta_z, vm2.zeta, *grid.h)
+    want2 = ref2.A @ ev2
+    d3 = float(np.abs(-np.array(rf.field)[ref.interior] -
+                      want2[ref.interior]).max()/np.abs(want2).max())
+    rec.margin('second_operator_rel_err', d3)
+    rec.event('second_operator_checks')
+    if not (d3 <= 1e-11):
+        rec.violation('C02:second-operator-from-same-model',
+                      f'second operator built from the same Model object '
+                      f'(frequency {freq2}) differs from the FIT operator of '
+                      f'that model: {d3:.3e} (mapping {ms["mapping"]})', case)
+        return
     rec.distinct((tuple(grid.shape_cells), ms['case'], case['mu_r'],
                   case['eps_r'], str(dtype), tag.split(':')[0]))
     rec.sample({'shape': list(grid.shape_cells), 'case': ms['case'],
@@ -366,4 +409,5 @@ def finalize(merged, tier):
     common.require_events(merged, {
         'amat_x_calls': 5000, 'entries_compared': 100000,
         'symmetry_checks': 50, 'gradient_null_checks': 200,
-        'pyfunc_columns': 100, 'insitu_amat_x_calls': 150})
+        'pyfunc_columns': 100, 'insitu_amat_x_calls': 150,
+        'model_untouched_checks': 50, 'second_operator_checks': 50})
